@@ -1,8 +1,10 @@
 import Driver.Util
 import Driver.C09
+import Driver.C45
 def main (args : List String) : IO Unit := do
   let stdin ← IO.getStdin
   let stdout ← IO.getStdout
   match args with
   | ["C09"] => Driver.loop stdin stdout Driver.C09.handler
+  | ["C45"] => Driver.loop stdin stdout Driver.C45.handler
   | _ => IO.eprintln "family?"
